@@ -464,10 +464,12 @@ func c19VRun(x *h.Ctx, c c19VCase) {
 			for _, cred := range vp.VerifiableCredential {
 				c19UseCredential(x, cred)
 			}
-			if b, err := json.Marshal(vp); err == nil {
-				var back vc.VerifiablePresentation
-				_ = json.Unmarshal(b, &back)
-			}
+			c19x.Own(x, func() {
+				if b, err := json.Marshal(vp); err == nil {
+					var back vc.VerifiablePresentation
+					_ = json.Unmarshal(b, &back)
+				}
+			})
 			creds, err := v.VerifyVP(*vp, c.VerifyVCs, c.AllowUntrusted, &c19ValidAt)
 			c19ClassifyVerify(x, "verifyVP", err)
 			if err == nil {
@@ -513,17 +515,23 @@ func c19ClassifyVerify(x *h.Ctx, what string, err error) {
 
 // c19UseCredential applies the helpers production code applies to parsed credentials before/around verification.
 func c19UseCredential(x *h.Ctx, cred vc.VerifiableCredential) {
-	_, _ = cred.SubjectDID()
+	// library-only inspection by the harness
+	c19x.Own(x, func() {
+		_, _ = cred.SubjectDID()
+		_, _ = cred.CredentialStatuses()
+		_ = cred.ValidAt(c19ValidAt, time.Second)
+	})
+	c19x.Own(x, func() {
+		if b, err := json.Marshal(cred); err == nil {
+			var back vc.VerifiableCredential
+			_ = json.Unmarshal(b, &back)
+		}
+	})
+	// nuts-node helpers
 	_, _ = credential.ResolveSubjectDID(cred)
 	_ = credential.ExtractTypes(cred)
 	_ = credential.FilterOnDIDMethod([]vc.VerifiableCredential{cred}, []string{"web", "nuts"})
-	_, _ = cred.CredentialStatuses()
-	_ = cred.ValidAt(c19ValidAt, time.Second)
 	_ = credential.AutoCorrectSelfAttestedCredential(cred, did.MustParseDID(c19Holder))
-	if b, err := json.Marshal(cred); err == nil {
-		var back vc.VerifiableCredential
-		_ = json.Unmarshal(b, &back)
-	}
 	_ = credential.FindValidator(cred).Validate(cred)
 }
 
